@@ -156,8 +156,11 @@ def trace_for(tid, rng, with_meas):
             circ["ops"][k]["noise"] = [none] * max(1, len(circ["ops"][k]["gates"]))
         else:
             circ["ops"][k]["noise"] = nzs
-    dm, psd = final_obs(noisy.copy(), "dm", setting, True, seed)
-    mix, _ = final_obs(noisy.copy(), "stabilizer", setting, True, seed)
+    # every second circuit is handed to the two compilers as the SAME object, one after the other (a compile must leave the
+    # circuit - its noise descriptors included - as it found it)
+    keep = (lambda c: c) if seed % 2 else (lambda c: c.copy())
+    dm, psd = final_obs(keep(noisy), "dm", setting, True, seed)
+    mix, _ = final_obs(keep(noisy), "stabilizer", setting, True, seed)
     zero = build_noisy(n_e, n_p, n_c, prog, noise, zero=True)
     bare = build_noisy(n_e, n_p, n_c, prog, noise, strip=True)
     nl_zero = [final_obs(zero.copy(), b, setting, True, seed)[0] for b in ("dm", "stabilizer")]
